@@ -89,7 +89,7 @@ def frames(stream, scenario_lines=None):
             cur.zid = parse_ids(rest)
         elif tag == 'runbegin':
             a, b = rest.split()
-            f = Frame(('runbegin', num(a), int(b)))
+            f = Frame(('runbegin', num(a), num(b)))
             fs.append(f)
             cur = f
         elif tag == 'ran':
